@@ -8,6 +8,7 @@ of <meta name="robots" content="nofollow"> (DESIGN.md section 3, C20-D1..D5).
 Not analysed: wpull/thirdparty/robotexclusionrulesparser.py (the matcher itself).
 """
 import ast
+import os
 import re
 import string
 
@@ -1586,18 +1587,26 @@ def _d5(ctx):
                             neither.append('%s[%s]' % (getattr(tk, 'value', '?'), getattr(ak, 'value', '?')))
             ck.expect(not neither, 'C20-D5b', ew.qual, 'every (tag, attribute) of the link table is inline or a link',
                       'the table entry %s carries neither ATTR_INLINE nor ATTR_HTML: such links are followed but escape the nofollow test' % ', '.join(neither[:4]),
-                      ew.module.path)
+                      os.path.relpath(ew.module.path, repo.root))
             fb = {}
             for nm, flag in (('is_link_inline', 'ATTR_INLINE'), ('is_html_link', 'ATTR_HTML')):
                 m_ = ew.methods.get(nm)
                 rets = [r for r in walk_no_nested(m_.node) if isinstance(r, ast.Return)] if m_ is not None else []
                 last = rets[-1].value if rets else None
-                if isinstance(last, ast.Compare) and len(last.ops) == 1 and isinstance(last.comparators[0], ast.Constant):
-                    fb[nm] = (type(last.ops[0]).__name__, last.comparators[0].value)
+                if isinstance(last, ast.UnaryOp) and isinstance(last.op, ast.Not) and isinstance(last.operand, ast.Compare) and len(last.operand.ops) == 1:
+                    inner = last.operand
+                    flip = {'Eq': 'NotEq', 'NotEq': 'Eq'}.get(type(inner.ops[0]).__name__)
+                    c_ = next((x for x in (inner.left, inner.comparators[0]) if isinstance(x, ast.Constant)), None)
+                    if flip and c_ is not None:
+                        fb[nm] = (flip, c_.value)
+                elif isinstance(last, ast.Compare) and len(last.ops) == 1:
+                    c_ = next((x for x in (last.left, last.comparators[0]) if isinstance(x, ast.Constant)), None)
+                    if c_ is not None:
+                        fb[nm] = (type(last.ops[0]).__name__, c_.value)
             okfb = len(fb) == 2 and fb['is_link_inline'][1] == fb['is_html_link'][1] and {fb['is_link_inline'][0], fb['is_html_link'][0]} == {'Eq', 'NotEq'}
             ck.expect(okfb, 'C20-D5b', ew.qual, 'the fall-backs of is_link_inline / is_html_link are complementary',
                       'for an attribute outside the table the two fall-back tests (%s) are not each other\'s negation: a link can be neither inline nor '
-                      'linked and escapes the nofollow test' % (fb,), ew.module.path)
+                      'linked and escapes the nofollow test' % (fb,), os.path.relpath(ew.module.path, repo.root))
         else:
             raise AnalysisError('ElementWalker.TAG_ATTRIBUTES / ATTR_* not found as class constants')
     # ---- (b) removal in scrape: when the consumer drops the linked URLs of every result under the published flag (b''), a removal inside
